@@ -12,6 +12,7 @@ A session is
   schedule : list of steps  ('q',) enqueue the next request on the client
                             ('s', rx, tx) Valet.serviceAll with receive/send byte budgets (None = unlimited)
                             ('c', rx, tx) Patron.serviceAll likewise
+                            ('t', seconds) advance the STORE clock (idle gap; the Valet's idle timeout is 5 s)
   After the schedule every remaining request is enqueued and both sides are serviced
   alternately without budgets until the client holds N responses or nothing moves any more.
 """
@@ -209,6 +210,8 @@ def run_session(shapes, schedule, gen=None, max_rounds=60):
         for st in schedule:
             if st[0] == 'q':
                 enqueue()
+            elif st[0] == 't':      # ('t', seconds): STORE time passes (timers of the Valet / Patron run on it)
+                store.advanceStamp(st[1])
             elif st[0] == 's':
                 step_server(st[1], st[2])
             else:
